@@ -2,9 +2,9 @@
 //! catalogue against the reference model.  The generated code only supplies closures that run the
 //! instantiated query and map each result tuple to a `Row`; everything else lives here.
 
-use crate::arena;
-use crate::comp::{self, Comp};
-use crate::s4::*;
+use mccore::arena;
+use mccore::comp::{self, Comp};
+use mccore::s4::*;
 use std::collections::BTreeMap;
 
 #[derive(Clone, Copy, Debug, PartialEq, Eq)]
@@ -178,7 +178,7 @@ impl GridCtx {
         if self.found.iter().any(|f| f.0 == prop && f.1 == key) {
             return;
         }
-        let replay = format!("{{\"engine\":\"grid\",\"case\":{},\"world_index\":{},\"world_history\":{:?}}}", crate::util::json_str(label), wi, self.worlds[wi]);
+        let replay = format!("{{\"engine\":\"grid\",\"case\":{},\"world_index\":{},\"world_history\":{:?}}}", mccore::util::json_str(label), wi, self.worlds[wi]);
         self.found.push((prop.to_string(), key, detail, replay));
     }
 }
@@ -542,7 +542,7 @@ pub fn run_par_case(ctx: &mut GridCtx, desc: &QDesc, seq: SeqFn, par: ParFn) {
 // ---------------------------------------------------------------------------------------------
 // C15: resource views — every subset x order x kind of a three-resource list, through four access paths
 
-pub type R2 = crate::comp::Big<12>;
+pub type R2 = mccore::comp::Big<12>;
 pub type Res3 = brood::Resources!(R0, R1, R2);
 pub type W3 = brood::World<Reg, Res3>;
 pub const RES_INIT: [u32; 3] = [11, 22, 33];
@@ -627,11 +627,11 @@ pub fn run_res_case(ctx: &mut GridCtx, label: &'static str, views: &[(usize, boo
         let rep = arena::end();
         for (k, d) in sys {
             if !ctx.found.iter().any(|f| f.0 == "C15" && f.1 == k) {
-                ctx.found.push(("C15".into(), k.replace(' ', "_"), format!("[{}] {}", label, d), format!("{{\"engine\":\"grid\",\"case\":{},\"world_index\":0,\"world_history\":[]}}", crate::util::json_str(label))));
+                ctx.found.push(("C15".into(), k.replace(' ', "_"), format!("[{}] {}", label, d), format!("{{\"engine\":\"grid\",\"case\":{},\"world_index\":0,\"world_history\":[]}}", mccore::util::json_str(label))));
             }
         }
         if !rep.errors.is_empty() || rep.leaked_blocks > 0 {
-            ctx.found.push(("C15".into(), "allocator-misuse-or-leak-in-resource-access".into(), format!("[{}] {}", label, rep.describe()), format!("{{\"engine\":\"grid\",\"case\":{},\"world_index\":0,\"world_history\":[]}}", crate::util::json_str(label))));
+            ctx.found.push(("C15".into(), "allocator-misuse-or-leak-in-resource-access".into(), format!("[{}] {}", label, rep.describe()), format!("{{\"engine\":\"grid\",\"case\":{},\"world_index\":0,\"world_history\":[]}}", mccore::util::json_str(label))));
         }
     }
 }
@@ -653,8 +653,8 @@ pub fn shard_main(cases: &[(&str, fn(&mut GridCtx))]) {
         }
         i += 1;
     }
-    crate::util::install_crash_handler();
-    crate::util::install_quiet_panic_hook();
+    mccore::util::install_crash_handler();
+    mccore::util::install_quiet_panic_hook();
     let pool = rayon::ThreadPoolBuilder::new().num_threads(1).build().unwrap();
     pool.install(|| {
         arena::init_thread(0);
@@ -665,7 +665,7 @@ pub fn shard_main(cases: &[(&str, fn(&mut GridCtx))]) {
             if only_case.as_ref().map_or(false, |c| c != name) {
                 continue;
             }
-            crate::util::set_crash_descriptor(&format!("engine=grid case={}", name));
+            mccore::util::set_crash_descriptor(&format!("engine=grid case={}", name));
             let r = std::panic::catch_unwind(std::panic::AssertUnwindSafe(|| f(&mut ctx)));
             if r.is_err() {
                 // an unwinding panic inside brood while evaluating a query
@@ -673,8 +673,8 @@ pub fn shard_main(cases: &[(&str, fn(&mut GridCtx))]) {
                     drop(comp::ledger_end());
                     let _ = arena::end();
                 }
-                let msg = crate::util::take_last_panic();
-                ctx.found.push(("C03".into(), "query-panicked".into(), format!("[{}] {}", name, msg), format!("{{\"engine\":\"grid\",\"case\":{},\"world_index\":0,\"world_history\":[]}}", crate::util::json_str(name))));
+                let msg = mccore::util::take_last_panic();
+                ctx.found.push(("C03".into(), "query-panicked".into(), format!("[{}] {}", name, msg), format!("{{\"engine\":\"grid\",\"case\":{},\"world_index\":0,\"world_history\":[]}}", mccore::util::json_str(name))));
             }
         }
         for (prop, key, detail, replay) in &ctx.found {
